@@ -1,4 +1,5 @@
 import Firefly.Model.Spin
+import Firefly.Model.SpinCfg
 import Firefly.Proof.Spin
 import Firefly.Proof.SpinInv
 import Firefly.Proof.SpinRun
@@ -35,6 +36,17 @@ lock is in the model.  When it cannot (an unknown mnemonic, a new TEXT symbol, a
 another routine, …) the generated file carries the reason in `Gen.C08.tieBroken` and this theorem —
 with everything about the programs — stops checking: the tie is broken explicitly, by name. -/
 theorem tie_intact : Gen.C08.tieBroken = [] := by decide
+
+/-- **canonical_program_is_source_program** — `Gen.C08.acquireAsm`, the program all theorems below are
+about, is the source program `Gen.C08.rawAsm` (the instructions of `spinlock_amd64.s` in source
+order) re-linearised: under `Gen.C08.canonOrigin` the entries correspond and every instruction of
+`acquireAsm` other than an unconditional jump is the same instruction of `rawAsm` with the same
+successors, where `JZ t` / `JNZ t` are read as one branch node with (if-ZF, if-not-ZF) successors and
+unconditional jumps only redirect edges (`Model/SpinCfg.lean`).  The fact generator's re-lineariser —
+which makes the proofs independent of block layout and jump polarity — is therefore checked on every
+run, not trusted. -/
+theorem canonical_program_is_source_program :
+    sameGraph Gen.C08.rawAsm Gen.C08.acquireAsm Gen.C08.canonOrigin = true := by decide
 
 /-- **mutex** — in every reachable state at most one thread is a holder. -/
 theorem mutex {cfg : Config} {n : Nat} {s : State} (hr : Reachable cfg n s)
